@@ -95,17 +95,21 @@ def idents(p, position="other"):
 
 @st.composite
 def unique_idents(draw, p, n, avoid=(), position="other"):
+    # names are kept distinct up to case and underscores: backends re-case identifiers (`Function` and `function` are both
+    # `function` in JS), and a collision produced that way is outside the property's domain
+    def fold(x):
+        return x.replace("_", "").lower()
     out = []
-    seen = set(avoid)
+    seen = {fold(a) for a in avoid}
     pool = idents(p, position)
     for i in range(n):
         x = draw(pool)
         k = 0
         base = x
-        while x in seen:
+        while fold(x) in seen:
             k += 1
             x = "%s%d" % (base, k)
-        seen.add(x)
+        seen.add(fold(x))
         out.append(x)
     return out
 
